@@ -1,34 +1,114 @@
 // C20 harness, part 3: sessions, op loop (included by c20.cpp).
 namespace {
 
+/// a change of the data of a problem object (`mutate …` / `mutatew …` ops)
+struct Mut {
+    std::string what; // "C", "D" (bounds), "const" (the cost / terminal cost becomes the constant v)
+    vec lb, ub;
+    real_t v = 0;
+};
+// what a mutation means for each kind of underlying problem; "unsupported" when the class has no such data
+inline std::string apply_mut(NativeBase &u, const Mut &m, int ep) {
+    if (m.what == "C") { if (m.lb.size() != u.n) return "bad-size"; u.C.lowerbound = m.lb; u.C.upperbound = m.ub; }
+    else if (m.what == "D") { if (m.lb.size() != u.m) return "bad-size"; u.D.lowerbound = m.lb; u.D.upperbound = m.ub; }
+    else if (m.what == "const") { u.has_fconst = true; u.fconst = m.v; }
+    else return "unsupported";
+    u.epoch = ep;
+    return "ok";
+}
+inline std::string apply_mut(alpaqa::FunctionalProblem<config_t> &u, const Mut &m, int ep) {
+    if (m.what == "C") { if (m.lb.size() != u.n) return "bad-size"; u.C.lowerbound = m.lb; u.C.upperbound = m.ub; }
+    else if (m.what == "D") { if (m.lb.size() != u.m) return "bad-size"; u.D.lowerbound = m.lb; u.D.upperbound = m.ub; }
+    else if (m.what == "const") { real_t v = m.v; u.f = [v](crvec) { LOG("eval_f"); return v; }; }
+    else return "unsupported";
+    (void)ep;
+    return "ok";
+}
+inline std::string apply_mut(OcpBase &u, const Mut &m, int ep) {
+    if (m.what == "D") { if (m.lb.size() != u.nc) return "bad-size"; u.has_Dov = true; u.Dov = Box{u.nc}; u.Dov.lowerbound = m.lb; u.Dov.upperbound = m.ub; }
+    else if (m.what == "const") { u.has_lN = true; u.lNconst = m.v; }
+    else return "unsupported";
+    u.epoch = ep;
+    return "ok";
+}
+inline std::string apply_mut(alpaqa::dl::DLProblem &, const Mut &, int) { return "unsupported"; }
+inline std::string apply_mut(alpaqa::dl::DLControlProblem &, const Mut &, int) { return "unsupported"; }
+
 struct Handle {
     std::shared_ptr<void> obj;
-    std::unique_ptr<TEP> te;
-    std::unique_ptr<TEO> teo;
+    std::unique_ptr<TEP> te, dte;   // te: over the counting wrapper; dte: over this handle's reference object
+    std::unique_ptr<TEO> teo, dteo;
     std::function<std::string()> cnt;
     std::function<bool()> is_null;
     std::function<Handle()> copy;
     std::function<void()> decouple, reset;
-    length_t rw = 0, sw = 0;
+    std::function<std::string(const Mut &, int)> mutate_own; // through the wrapper's own `problem` member
+    bool is_ref = false;
+    length_t rw = 0, sw = 0, drw = 0, dsw = 0;
 };
 
-template <class W>
-Handle make_handle(std::shared_ptr<W> w) {
+template <class U>
+constexpr bool is_ocp_v = requires(const U &u) { u.get_nx(); };
+// the library's helper functions (these, not the class templates, are what the op `create` / `createref` run)
+template <class U>
+auto wrap_value(const U &u) {
+    if constexpr (is_ocp_v<U>) return alpaqa::ocproblem_with_counters(u);
+    else return alpaqa::problem_with_counters(u);
+}
+template <class U>
+auto wrap_reference(U &u) {
+    if constexpr (is_ocp_v<U>) return alpaqa::ocproblem_with_counters_ref(u);
+    else return alpaqa::problem_with_counters_ref(u);
+}
+
+/// `w`: the wrapper under test.  `refu`: the object that the property says the wrapper must behave like —
+/// for a by-reference wrapper the underlying problem itself (whatever its data are *now*), for a by-value
+/// wrapper a plain copy of the problem taken by the harness when the wrapper was made (copied again when the
+/// wrapper is copied, changed when the wrapper's own `problem` member is changed).  It never goes through
+/// ProblemWithCounters.
+template <class U, class W>
+Handle make_handle(std::shared_ptr<W> w, std::shared_ptr<U> refu, bool is_ref) {
     Handle h;
-    h.obj = w;
-    if constexpr (requires { w->get_nx(); }) {
-        h.teo = std::make_unique<TEO>(w.get());
-        h.rw  = h.teo->get_R_work_size();
-        h.sw  = h.teo->get_S_work_size();
+    h.obj    = w;
+    h.is_ref = is_ref;
+    if constexpr (is_ocp_v<U>) {
+        h.teo  = std::make_unique<TEO>(w.get());
+        h.rw   = h.teo->get_R_work_size();
+        h.sw   = h.teo->get_S_work_size();
+        h.dteo = std::make_unique<TEO>(refu.get());
+        h.drw  = h.dteo->get_R_work_size();
+        h.dsw  = h.dteo->get_S_work_size();
     } else {
-        h.te = std::make_unique<TEP>(w.get());
+        h.te  = std::make_unique<TEP>(w.get());
+        h.dte = std::make_unique<TEP>(refu.get());
     }
     h.cnt      = [w] { return w->evaluations ? fmt_cnt(*w->evaluations) : std::string("null"); };
     h.is_null  = [w] { return !w->evaluations; };
-    h.copy     = [w] { return make_handle<W>(std::make_shared<W>(*w)); };
+    h.copy     = [w, refu, is_ref] {
+        return make_handle<U, W>(std::make_shared<W>(*w), is_ref ? refu : std::make_shared<U>(*refu), is_ref);
+    };
     h.decouple = [w] { w->decouple_evaluations(); };
     h.reset    = [w] { w->reset_evaluations(); };
+    if constexpr (!std::is_reference_v<decltype(w->problem)>)
+        h.mutate_own = [w, refu](const Mut &m, int ep) {
+            std::string a = apply_mut(w->problem, m, ep);
+            if (a == "ok") apply_mut(*refu, m, ep);
+            return a;
+        };
     return h;
+}
+
+/// `create` (by value, `problem_with_counters(u)`) and `createref` (`problem_with_counters_ref(u)`) of one underlying problem
+template <class U>
+std::function<Handle(bool)> creator(std::shared_ptr<U> u) {
+    return [u](bool by_ref) {
+        if (by_ref) {
+            using WR = decltype(wrap_reference(*u));
+            return make_handle<U, WR>(std::make_shared<WR>(wrap_reference(*u)), u, true);
+        }
+        using WV = decltype(wrap_value(*u));
+        return make_handle<U, WV>(std::make_shared<WV>(wrap_value(*u)), std::make_shared<U>(*u), false);
+    };
 }
 
 struct Session {
@@ -37,7 +117,10 @@ struct Session {
     std::unique_ptr<TEP> d, r;
     std::unique_ptr<TEO> od, orf;
     length_t drw = 0, dsw = 0, rrw = 0, rsw = 0;
-    std::function<Handle()> create;
+    std::function<Handle(bool)> create;                 // true: by reference
+    std::function<std::string(const Mut &, int)> mutate; // changes the underlying problem (and what mirrors it)
+    bool has_epoch = false;                               // native classes report the stamp of the object evaluated
+    int epoch_ctr  = 0;
     std::vector<Handle> ws;
     c20_log_take_t log_take      = nullptr;
     const char *const *log_names = nullptr;
@@ -72,7 +155,9 @@ std::unique_ptr<Session> native_session(uint32_t pv, length_t n, length_t m) {
     auto s = std::make_unique<Session>();
     s->keep.push_back(u);
     s->d      = std::make_unique<TEP>(u.get());
-    s->create = [u] { return make_handle(std::make_shared<alpaqa::ProblemWithCounters<U>>(*u)); };
+    s->create    = creator<U>(u);
+    s->mutate    = [u](const Mut &m, int ep) { return apply_mut(*u, m, ep); };
+    s->has_epoch = true;
     return s;
 }
 #define NATIVE_LIST(X)                                                                                                  \
@@ -101,12 +186,62 @@ std::unique_ptr<Session> native_session(uint32_t pv, length_t n, length_t m) {
 #else
 #define NATIVE_LIST2(X)
 #endif
+// thorough tier: member ABSENT at compile time (not merely provides_ == false): every single optional member
+// missing, every single optional member as the only one
+#ifdef C20_THOROUGH
+#define NATIVE_LIST3(X)                                                                                                 \
+    X(20, ALLB & ~bit(0), 0u)                                                                                  \
+    X(21, ALLB & ~bit(1), 0u)                                                                                  \
+    X(22, ALLB & ~bit(2), 0u)                                                                                  \
+    X(23, ALLB & ~bit(3), 0u)                                                                                  \
+    X(24, ALLB & ~bit(4), 0u)                                                                                  \
+    X(25, ALLB & ~bit(5), 0u)                                                                                  \
+    X(26, ALLB & ~bit(6), 0u)                                                                                  \
+    X(27, ALLB & ~bit(7), 0u)                                                                                  \
+    X(28, ALLB & ~bit(8), 0u)                                                                                  \
+    X(29, ALLB & ~bit(9), 0u)                                                                                  \
+    X(30, ALLB & ~bit(10), 0u)                                                                                  \
+    X(31, ALLB & ~bit(11), 0u)                                                                                  \
+    X(32, ALLB & ~bit(12), 0u)                                                                                  \
+    X(33, ALLB & ~bit(13), 0u)                                                                                  \
+    X(34, ALLB & ~bit(14), 0u)                                                                                  \
+    X(35, ALLB & ~bit(15), 0u)                                                                                  \
+    X(36, ALLB & ~bit(16), 0u)                                                                                  \
+    X(37, ALLB & ~bit(17), 0u)                                                                                  \
+    X(38, ALLB & ~bit(18), 0u)                                                                                  \
+    X(39, ALLB & ~bit(19), 0u)                                                                                  \
+    X(40, ALLB & ~bit(20), 0u)                                                                                  \
+    X(41, bit(0), 0u)                                                                                          \
+    X(42, bit(1), 0u)                                                                                          \
+    X(43, bit(2), 0u)                                                                                          \
+    X(44, bit(3), 0u)                                                                                          \
+    X(45, bit(4), 0u)                                                                                          \
+    X(46, bit(5), 0u)                                                                                          \
+    X(47, bit(6), 0u)                                                                                          \
+    X(48, bit(7), 0u)                                                                                          \
+    X(49, bit(8), 0u)                                                                                          \
+    X(50, bit(9), 0u)                                                                                          \
+    X(51, bit(10), 0u)                                                                                          \
+    X(52, bit(11), 0u)                                                                                          \
+    X(53, bit(12), 0u)                                                                                          \
+    X(54, bit(13), 0u)                                                                                          \
+    X(55, bit(14), 0u)                                                                                          \
+    X(56, bit(15), 0u)                                                                                          \
+    X(57, bit(16), 0u)                                                                                          \
+    X(58, bit(17), 0u)                                                                                          \
+    X(59, bit(18), 0u)                                                                                          \
+    X(60, bit(19), 0u)                                                                                          \
+    X(61, bit(20), 0u)
+#else
+#define NATIVE_LIST3(X)
+#endif
 
 std::unique_ptr<Session> new_native(int idx, uint32_t has, uint32_t prov, uint32_t pv, length_t n, length_t m) {
     switch (idx) {
 #define X(i, H, P) case i: return ((H) == has && (P) == prov) ? native_session<(H), (P)>(pv, n, m) : nullptr;
         NATIVE_LIST(X)
         NATIVE_LIST2(X)
+        NATIVE_LIST3(X)
 #undef X
         default: return nullptr;
     }
@@ -136,7 +271,14 @@ std::unique_ptr<Session> new_functional(uint32_t fmask, length_t n, length_t m) 
     s->keep.push_back(ref);
     s->d      = std::make_unique<TEP>(u.get());
     s->r      = std::make_unique<TEP>(ref.get());
-    s->create = [u] { return make_handle(std::make_shared<alpaqa::ProblemWithCounters<FP>>(*u)); };
+    s->create = creator<FP>(u);
+    // the independent reference RefFun keeps its own copy of the boxes: it follows the underlying problem
+    s->mutate = [u, ref](const Mut &m, int ep) {
+        std::string a = apply_mut(*u, m, ep);
+        if (a == "ok" && m.what == "C") { ref->C.lowerbound = m.lb; ref->C.upperbound = m.ub; }
+        if (a == "ok" && m.what == "D") { ref->D.lowerbound = m.lb; ref->D.upperbound = m.ub; }
+        return a;
+    };
     return s;
 }
 
@@ -167,6 +309,22 @@ std::string classify(const std::function<void()> &f, bool &warned) {
     return res;
 }
 
+/// how often the plug-in's registration function ran during one load attempt: every registration function of
+/// the C20 plug-ins increments the exported counter `c20_reg_calls` (read through our own dlopen handle)
+struct RegCalls {
+    void *h     = nullptr;
+    int *cnt    = nullptr;
+    int before  = 0;
+    RegCalls(const std::string &path, bool usable) {
+        if (!usable) return;
+        h = dlopen(path.c_str(), RTLD_NOW | RTLD_LOCAL);
+        if (h) cnt = reinterpret_cast<int *>(dlsym(h, "c20_reg_calls"));
+        if (cnt) before = *cnt;
+    }
+    std::string str() const { return cnt ? std::to_string(*cnt - before) : std::string("-"); }
+    ~RegCalls() { if (h) dlclose(h); }
+};
+
 std::string so_path(const std::string &file) {
     if (file == "empty") return "";
     if (file == "missing") return plugin_dir + "/c20_does_not_exist.so";
@@ -180,12 +338,15 @@ std::unique_ptr<Session> new_dl(const std::string &file, const std::string &regf
     s->keep.push_back(params);
     std::shared_ptr<DLProblem> u;
     bool warned = false;
+    RegCalls rc(so_path(file), file != "empty" && file != "missing");
     status      = classify([&] {
         u = std::make_shared<DLProblem>(so_path(file), regfn, alpaqa_register_arg_t{params.get(), alpaqa_register_arg_unspecified});
     }, warned);
-    if (status != "ok")
+    if (status != "ok") {
+        status += " regcalls=" + rc.str();
         return nullptr;
-    status += warned ? " warned=1" : " warned=0";
+    }
+    status += (warned ? " warned=1" : " warned=0") + std::string(" regcalls=") + rc.str();
     s->keep.push_back(u);
     // our own handle on the plug-in: log + a second instance for the reference path
     void *h = dlopen(so_path(file).c_str(), RTLD_NOW | RTLD_LOCAL);
@@ -204,7 +365,8 @@ std::unique_ptr<Session> new_dl(const std::string &file, const std::string &regf
         if (rr->cleanup && rr->instance) rr->cleanup(rr->instance);
         dlclose(h);
     };
-    s->create = [u] { return make_handle(std::make_shared<alpaqa::ProblemWithCounters<DLProblem>>(*u)); };
+    s->create = creator<DLProblem>(u);
+    s->mutate = [u](const Mut &m, int ep) { return apply_mut(*u, m, ep); };
     s->take_log();
     return s;
 }
@@ -229,8 +391,10 @@ std::unique_ptr<Session> ocp_session(uint32_t pv, length_t nh, length_t nc, std:
     }
     s->drw    = s->od->get_R_work_size();
     s->dsw    = s->od->get_S_work_size();
-    s->create = [u] { return make_handle(std::make_shared<alpaqa::ControlProblemWithCounters<U>>(*u)); };
-    status    = "ok";
+    s->create    = creator<U>(u);
+    s->mutate    = [u](const Mut &m, int ep) { return apply_mut(*u, m, ep); };
+    s->has_epoch = true;
+    status       = "ok";
     g_log.clear();
     return s;
 }
@@ -249,6 +413,42 @@ constexpr uint32_t HH = (1u << O_H) | (1u << O_H_N);
     X(8, ALLO | (1u << O_H), 0u)                                                                                        \
     X(9, (1u << O_H_N) | (1u << O_GET_D) | (1u << O_CONSTR) | (1u << O_GCP), (1u << O_H_N))
 
+#ifdef C20_THOROUGH
+#define OCP_LIST_H2(X)                                                                                                  \
+    X(10, (ALLO | HH) & ~(1u << 0), 0u)                                                                        \
+    X(11, (ALLO | HH) & ~(1u << 1), 0u)                                                                        \
+    X(12, (ALLO | HH) & ~(1u << 2), 0u)                                                                        \
+    X(13, (ALLO | HH) & ~(1u << 3), 0u)                                                                        \
+    X(14, (ALLO | HH) & ~(1u << 4), 0u)                                                                        \
+    X(15, (ALLO | HH) & ~(1u << 5), 0u)                                                                        \
+    X(16, (ALLO | HH) & ~(1u << 6), 0u)                                                                        \
+    X(17, (ALLO | HH) & ~(1u << 7), 0u)                                                                        \
+    X(18, (ALLO | HH) & ~(1u << 8), 0u)                                                                        \
+    X(19, (ALLO | HH) & ~(1u << 9), 0u)                                                                        \
+    X(20, (ALLO | HH) & ~(1u << 10), 0u)                                                                        \
+    X(21, (ALLO | HH) & ~(1u << 11), 0u)                                                                        \
+    X(22, (ALLO | HH) & ~(1u << 12), 0u)                                                                        \
+    X(23, (ALLO | HH) & ~(1u << 13), 0u)                                                                        \
+    X(24, (ALLO | HH) & ~(1u << 14), 0u)                                                                        \
+    X(25, (1u << 0), 0u)                                                                                       \
+    X(26, (1u << 1), 0u)                                                                                       \
+    X(27, (1u << 2), 0u)                                                                                       \
+    X(28, (1u << 3), 0u)                                                                                       \
+    X(29, (1u << 4), 0u)                                                                                       \
+    X(30, (1u << 5), 0u)                                                                                       \
+    X(31, (1u << 6), 0u)                                                                                       \
+    X(32, (1u << 7), 0u)                                                                                       \
+    X(33, (1u << 8), 0u)                                                                                       \
+    X(34, (1u << 9), 0u)                                                                                       \
+    X(35, (1u << 10), 0u)                                                                                       \
+    X(36, (1u << 11), 0u)                                                                                       \
+    X(37, (1u << 12), 0u)                                                                                       \
+    X(38, (1u << 13), 0u)                                                                                       \
+    X(39, (1u << 14), 0u)
+#else
+#define OCP_LIST_H2(X)
+#endif
+
 template <bool WithH>
 std::unique_ptr<Session> new_ocp(int idx, uint32_t has, uint32_t prov, uint32_t pv, length_t nh, length_t nc, std::string &status) {
     status = "bad-index";
@@ -262,6 +462,7 @@ std::unique_ptr<Session> new_ocp(int idx, uint32_t has, uint32_t prov, uint32_t 
         switch (idx) {
 #define X(i, H, P) case i: return ((H) == has && (P) == prov) ? ocp_session<(H), (P)>(pv, nh, nc, status) : nullptr;
             OCP_LIST_H(X)
+            OCP_LIST_H2(X)
 #undef X
             default: break;
         }
@@ -277,11 +478,15 @@ std::unique_ptr<Session> new_dlocp(const std::string &file, const std::string &r
     s->keep.push_back(params);
     std::shared_ptr<DLControlProblem> u;
     bool warned = false;
+    RegCalls rc(so_path(file), file != "empty" && file != "missing");
     status      = classify([&] {
         u = std::make_shared<DLControlProblem>(so_path(file), regfn, alpaqa_register_arg_t{params.get(), alpaqa_register_arg_unspecified});
     }, warned);
-    if (status != "ok")
+    const std::string regcalls = " regcalls=" + rc.str();
+    if (status != "ok") {
+        status += regcalls;
         return nullptr;
+    }
     s->keep.push_back(u);
     void *h      = dlopen(so_path(file).c_str(), RTLD_NOW | RTLD_LOCAL);
     s->log_take  = reinterpret_cast<c20_log_take_t>(dlsym(h, "c20_log_take"));
@@ -297,10 +502,10 @@ std::unique_ptr<Session> new_dlocp(const std::string &file, const std::string &r
     } catch (const std::runtime_error &e) {
         std::string w = e.what();
         auto p = w.find('\'');
-        status = "err:missing:" + (p == std::string::npos ? w : w.substr(p + 1, w.rfind('\'') - p - 1));
+        status = "err:missing:" + (p == std::string::npos ? w : w.substr(p + 1, w.rfind('\'') - p - 1)) + regcalls;
         return nullptr;
     }
-    status += warned ? " warned=1" : " warned=0";
+    status += (warned ? " warned=1" : " warned=0") + regcalls;
     auto ref = std::make_shared<RefDLO>(RefDLO{rr->functions, rr->instance, {}, {}});
     ref->init_boxes();
     s->keep.push_back(ref);
@@ -315,7 +520,8 @@ std::unique_ptr<Session> new_dlocp(const std::string &file, const std::string &r
     }
     s->drw = s->od->get_R_work_size(); s->dsw = s->od->get_S_work_size();
     if (s->orf) { s->rrw = s->orf->get_R_work_size(); s->rsw = s->orf->get_S_work_size(); }
-    s->create = [u] { return make_handle(std::make_shared<alpaqa::ControlProblemWithCounters<DLControlProblem>>(*u)); };
+    s->create = creator<DLControlProblem>(u);
+    s->mutate = [u](const Mut &m, int ep) { return apply_mut(*u, m, ep); };
     s->take_log();
     return s;
 }
@@ -360,10 +566,12 @@ int main(int argc, char **argv) {
 #define X(i, H, P) o << ' ' << i << ':' << uint32_t(H) << ':' << uint32_t(P);
                 NATIVE_LIST(X)
                 NATIVE_LIST2(X)
+                NATIVE_LIST3(X)
                 o << " ocp";
                 OCP_LIST(X)
                 if (eval_h_optional) {
                     OCP_LIST_H(X)
+                    OCP_LIST_H2(X)
                 }
 #undef X
                 std::cout << o.str() << '\n';
@@ -392,10 +600,25 @@ int main(int argc, char **argv) {
                 std::cout << status << '\n';
             } else if (!S) {
                 std::cout << "no-session\n";
-            } else if (op == "create") {
-                S->ws.push_back(S->create());
+            } else if (op == "create" || op == "createref") {
+                S->ws.push_back(S->create(op == "createref"));
                 S->take_log();
                 std::cout << "created " << S->ws.size() - 1 << '\n';
+            } else if (op == "mutate" || op == "mutatew") {
+                // mutate <what> …  : change the underlying problem;  mutatew <w> <what> … : change wrapper w's own copy
+                size_t w = 0;
+                if (op == "mutatew") w = (size_t)t.nat();
+                Mut m;
+                m.what = t.tok();
+                if (m.what == "const") m.v = t.flt();
+                else { m.lb = t.vec(); m.ub = t.vec(); }
+                if (op == "mutatew" && w >= S->ws.size()) { std::cout << "bad-wrapper\n"; continue; }
+                std::string a;
+                if (op == "mutate") a = S->mutate ? S->mutate(m, S->epoch_ctr + 1) : std::string("unsupported");
+                else a = S->ws[w].mutate_own ? S->ws[w].mutate_own(m, S->epoch_ctr + 1) : std::string("const-reference");
+                if (a == "ok") ++S->epoch_ctr;
+                S->take_log();
+                std::cout << a << '\n';
             } else if (op == "copy") {
                 size_t w = (size_t)t.nat();
                 if (w >= S->ws.size()) { std::cout << "bad-wrapper\n"; continue; }
@@ -436,20 +659,39 @@ int main(int argc, char **argv) {
                 Args A;
                 A.a = t.flt(); A.i = t.nat();
                 A.x = t.vec(); A.y = t.vec(); A.S = t.vec(); A.v = t.vec();
-                if (S->ocp) A.e5 = t.vec();
+                if (S->ocp) { A.e5 = t.vec(); A.zf = t.vec(); }
                 if (w >= S->ws.size()) { std::cout << "bad-wrapper\n"; continue; }
                 auto &h = S->ws[w];
                 bool riskyW = h.is_null() || S->fragile || (S->ocp && ocp_null_call(*h.teo, fn));
-                bool riskyD = S->fragile || (S->ocp && ocp_null_call(*S->od, fn));
+                bool riskyD = S->fragile || (S->ocp && ocp_null_call(*h.dteo, fn));
+                g_eps.clear();
                 Out W = run_call(*S, h.te.get(), h.teo.get(), fn, A, riskyW, h.rw, h.sw);
+                // stamp(s) of the problem object(s) this evaluation ran on (native classes only)
+                std::string ep = "-";
+                if (S->has_epoch && !g_eps.empty()) {
+                    std::sort(g_eps.begin(), g_eps.end());
+                    g_eps.erase(std::unique(g_eps.begin(), g_eps.end()), g_eps.end());
+                    ep.clear();
+                    for (size_t k = 0; k < g_eps.size(); ++k) ep += (k ? "/" : "") + std::to_string(g_eps[k]);
+                }
+                g_eps.clear();
                 std::string cnt = h.cnt();
-                Out D = run_call(*S, S->d.get(), S->od.get(), fn, A, riskyD, S->drw, S->dsw);
-                std::cout << W.st << " log=" << W.log << " cnt=" << cnt << " ## W " << W.vals << " | D " << D.st << ' ' << D.log << ' ' << D.vals;
+                // D: the same function on this handle's reference object (see make_handle)
+                Out D = run_call(*S, h.dte.get(), h.dteo.get(), fn, A, riskyD, h.drw, h.dsw);
+                std::cout << W.st << " log=" << W.log << " cnt=" << cnt << " ep=" << ep;
+                // the loader's own projections: the values belong to what the Lean model predicts
+                if (S->orf && (fn == "eval_proj_diff_g" || fn == "eval_proj_multipliers")) std::cout << " val=" << W.vals;
+                std::cout << " ## W " << W.vals << " | D " << D.st << ' ' << D.log << ' ' << D.vals;
                 if (S->r || S->orf) {
+                    // U: the underlying problem itself (the loader / function-object class), R: the independent reference
+                    bool riskyU = S->fragile || (S->ocp && ocp_null_call(*S->od, fn));
+                    Out U = run_call(*S, S->d.get(), S->od.get(), fn, A, riskyU, S->drw, S->dsw);
+                    std::cout << " | U " << U.st << ' ' << U.log << ' ' << U.vals;
                     bool riskyR = S->ocp && ocp_null_call(*S->orf, fn);
                     Out R = run_call(*S, S->r.get(), S->orf.get(), fn, A, riskyR, S->rrw, S->rsw);
                     std::cout << " | R " << R.st << ' ' << R.log << ' ' << R.vals;
                 }
+                g_eps.clear();
                 std::cout << '\n';
             } else {
                 std::cout << "bad-op\n";
